@@ -184,7 +184,31 @@ def failure_key(case, obs, msg):
     return f"{case['kind']}-{lay.get('header')}-{lay.get('wide') is not None}-{[d.get('dtype') for d in case['dims']]}"[:60] + msg[-20:]
 
 
+def _frame_of(case):
+    """the DataFrame that from_df was given in run_impl (rebuilt the same way)"""
+    import flodym as fd
+    ds = case["dims"]
+    dims = fl_dims_t(ds)
+    if case["kind"] == "direct":
+        vals = np.array([float(Fraction(v)) for v in case["values"]]).reshape(dims.shape)
+        a = fd.FlodymArray(dims=dims, values=vals)
+        return a.to_df(index=case["index"], dim_to_columns=case["dim_to_columns"], sparse=case["sparse"]), case["sparse"]
+    rows = dd.full_rows(ds, [Fraction(v) for v in case["values"]])
+    if case.get("relabel"):
+        i, j = case["relabel"]
+        rows[j] = [list(rows[i][0]), rows[j][1]]
+    return dd.build_df(ds, rows, case["layout"])[0], False
+
+
 def to_coq(case, obs):
+    old = _to_coq_rows(case, obs)
+    if case["kind"] == "export" or obs.get("kind") not in ("ok", "err") or obs.get("stage") == "to_df" or len(case["values"]) > 2000:
+        return old
+    df, am = _frame_of(case)
+    return f"(CBoth {old} {dd.cq_detect_case(case['dims'], df, am, False, obs)})"
+
+
+def _to_coq_rows(case, obs):
     ds = case["dims"]
     if case["kind"] == "export":
         rows = [[r[0], None if r[1] is None else Fraction(r[1][0], r[1][1])] for r in obs.get("rows", [])]
